@@ -21,6 +21,12 @@ returns a value or an error" is true by construction and says nothing.  The cont
     input has bytes (`typed_no_amplification`) and at most three times as many payload units
     (`typed_payload_no_amplification`).  No length announced on the wire is ever used to
     size anything: only bytes that are present produce nodes (F5 repair semantics).
+(c) the size and the work of `verify` itself (finding F23, known): per third-party caveat one
+    candidate's caveats are returned and all candidates with its ticket may be MACed
+    (`verify_result_size`, `verify_work_bound`); linear in the input when no ticket is repeated
+    (`verify_work_linear_of_distinct_tickets`); multiplied when one is (`repeated_ticket_is_quadratic`,
+    `repeated_ticket_example`).  MAC steps are not observable; family `hostile` observes allocation on
+    these shapes (`tok.many3p.sameticket.*`).
 
 What is OUTSIDE (exercised by family `hostile`, not proved): that these are ALL the panicking and
 allocating sites of the Go code; the Go allocator (`runtime.MemStats.TotalAlloc`, the library's
@@ -35,6 +41,8 @@ import Macaroon.Lemmas.HostileNested
 import Macaroon.Lemmas.HostileBytes
 import Macaroon.Lemmas.HeaderBounds
 import Macaroon.Lemmas.ErrorCount
+import Macaroon.Lemmas.VerifyWork
+import Macaroon.Crypto.Symbolic
 import Macaroon.Token.Concrete
 
 namespace Macaroon.Props.C12
@@ -134,6 +142,171 @@ theorem validate_error_count_bounded (cs : List (Cav Bytes)) (rs : List Access)
 /-- the hypothesis holds of every `flyio.Access` -/
 theorem flyio_access_one_wf_error (f : Flyio.Req) (s : Int) (n : Nat) : (f.toAccess s n).wf.length ≤ 1 :=
   toAccess_wf_len f s n
+
+/-! ### (b) the size and the work of `verify` (finding F23)
+
+`verify` (generic token logic, `Token/Macaroon.lean`) looks up, for EVERY third-party caveat of the
+token, the presented discharges carrying its ticket, tries them in order until one is accepted and
+appends that one's caveats.  A token whose `k` third-party caveats all carry the same ticket therefore
+makes it verify the same discharge `k` times and return its `c` caveats `k` times (F23, a known
+finding of the core library: 255 KB in, 2.56 M result caveats).  The theorems below delimit this: the
+bounds that always hold are per third-party caveat; they collapse to bounds linear in the input
+exactly when no ticket is repeated.  `verifyWork` (Lemmas/VerifyWork.lean) counts MAC steps through the
+model's own `walk` / `verifyFlat` / `firstDischarge` (it is defined FROM them, so there is no second
+verdict that could disagree).  Tie: MAC steps are not observable from outside; family `hostile`
+observes allocation on exactly these shapes (`tok.many3p.sameticket.*`). -/
+
+section verifyWork
+variable {B : Type} [Crypto B]
+open Macaroon.Crypto
+
+/-- **(1) result size.**  An accepted token returns at most its own caveats plus the caveats of the
+candidates that discharged its third-party caveats: `used` holds one presented discharge per
+third-party caveat (its key-id is that caveat's ticket); and their total size is at most the sum, over
+the third-party caveats, of the sizes of ALL candidates carrying the caveat's ticket (`tpW`). -/
+theorem verify_result_size (k : B) (m : Mac B) (dms : List (Mac B)) (tr : Bytes → List B) (cs : List (Cav B))
+    (hv : verify k m dms tr = .ok cs) :
+    ∃ used : List (Mac B), used.length = count3P m.cavs ∧
+      (∀ d ∈ used, d ∈ dms ∧ ∃ loc vk ticket, Cav.tp loc vk ticket ∈ m.cavs ∧ kidEq d.nonce.kid ticket = true) ∧
+      cs.length ≤ m.cavs.length + candW (fun d => d.cavs.length) used ∧
+      candW (fun d => d.cavs.length) used ≤ tpW (fun d => d.cavs.length) dms m.cavs :=
+  Lemmas.verify_result_size k m dms tr cs hv
+
+/-- … hence at most `|token| + (#third-party caveats) · (largest presented discharge)` -/
+theorem verify_result_size_max (k : B) (m : Mac B) (dms : List (Mac B)) (tr : Bytes → List B) (cs : List (Cav B))
+    (hv : verify k m dms tr = .ok cs) (M : Nat) (hM : ∀ d ∈ dms, d.cavs.length ≤ M) :
+    cs.length ≤ m.cavs.length + count3P m.cavs * M := by
+  obtain ⟨used, hlen, hmem, hsz, _⟩ := Lemmas.verify_result_size k m dms tr cs hv
+  have : candW (fun d : Mac B => d.cavs.length) used ≤ used.length * M := by
+    have : ∀ l : List (Mac B), (∀ d ∈ l, d.cavs.length ≤ M) → candW (fun d : Mac B => d.cavs.length) l ≤ l.length * M := by
+      intro l
+      induction l with
+      | nil => intro _; simp [candW]
+      | cons x xs ih =>
+        intro h
+        have h1 := h x List.mem_cons_self
+        have h2 := ih fun d hd => h d (List.mem_cons_of_mem _ hd)
+        simp only [candW, List.map_cons, List.sum_cons, List.length_cons, Nat.add_mul, Nat.one_mul] at h2 ⊢
+        omega
+    exact this used fun d hd => hM d (hmem d hd).1
+  rw [hlen] at this
+  omega
+
+/-- **(2) work bound.**  The MAC steps of `verify` — the token's nonce and caveats, then, per queued
+third-party caveat in order, every candidate with that ticket until the first accepted one — are at
+most `|token| + 1` plus, for each third-party caveat, `|d| + 1` for every presented discharge `d`
+whose key-id is the caveat's ticket. -/
+theorem verify_work_bound (k : B) (m : Mac B) (dms : List (Mac B)) (tr : Bytes → List B) :
+    verifyWork k m dms [] true tr ≤ m.cavs.length + 1 + tpW (fun d => d.cavs.length + 1) dms m.cavs :=
+  verifyWork_le k m dms [] true tr
+
+/-- what `tpW` is: the sum over the token's (top-level) third-party caveats, in order, of the total
+weight of the presented discharges whose key-id is the caveat's ticket -/
+theorem tpW_def (w : Mac B → Nat) (dms : List (Mac B)) :
+    tpW w dms ([] : List (Cav B)) = 0 ∧
+    (∀ loc vk ticket cs, tpW w dms (Cav.tp loc vk ticket :: cs) =
+      candW w (dms.filter fun d => kidEq d.nonce.kid ticket) + tpW w dms cs) ∧
+    (∀ c cs, tpFields? c = none → tpW w dms (c :: cs) = tpW w dms cs) ∧
+    (∀ ds : List (Mac B), candW w ds = (ds.map w).sum) := by
+  refine ⟨rfl, fun _ _ _ _ => rfl, ?_, fun _ => rfl⟩
+  intro c cs h
+  simp [tpW, h]
+
+/-- the measure is exact where it matters: a loop that succeeds looked at every caveat -/
+theorem walkSteps_exact (proof ta : Bool) (lookup : B → Option (List (Mac B))) (pids : List B)
+    (cs : List (Cav B)) (s s' : WalkState B) (h : walk proof ta lookup pids cs s = .ok s') :
+    walkSteps proof ta lookup pids cs s = cs.length :=
+  walkSteps_of_ok proof ta lookup pids cs s s' h
+
+/-- **(3) linear when no ticket is repeated.**  If the tickets of the token's third-party caveats are
+pairwise distinct (and key-ids are compared by equality, as `string(kid)` map keys are: true of both
+instances), every presented discharge is a candidate for at most one caveat, so the work is at most
+`|token| + 1 + Σ_d (|d| + 1)` over ALL presented discharges and an accepted token returns at most
+`|token| + Σ_d |d|` caveats — linear in the input.  F23 needs a repeated ticket. -/
+theorem verify_work_linear_of_distinct_tickets (k : B) (m : Mac B) (dms : List (Mac B)) (tr : Bytes → List B)
+    (hd : (tickets3 m.cavs).Pairwise (· ≠ ·)) (hk : ∀ a b : B, kidEq a b = true → a = b) :
+    verifyWork k m dms [] true tr ≤ m.cavs.length + 1 + candW (fun d => d.cavs.length + 1) dms ∧
+    ∀ cs, verify k m dms tr = .ok cs → cs.length ≤ m.cavs.length + candW (fun d => d.cavs.length) dms := by
+  constructor
+  · have h1 := verifyWork_le k m dms [] true tr
+    have h2 := tpW_le_of_distinct (fun d : Mac B => d.cavs.length + 1) m.cavs hd hk dms
+    omega
+  · intro cs hv
+    obtain ⟨used, _, _, h1, h2⟩ := Lemmas.verify_result_size k m dms tr cs hv
+    have h3 := tpW_le_of_distinct (fun d : Mac B => d.cavs.length) m.cavs hd hk dms
+    omega
+
+/-- **(4) the repeated ticket multiplies.**  When all third-party caveats of an accepted token queue the
+same candidate list under the same discharge key (one ticket repeated, every VerifierKey sealing the
+same key), the accepted discharge's `|r|` kept caveats are appended once per third-party caveat: the
+result has EXACTLY `kept + (#third-party caveats) · |r|` caveats — for every number of caveats and
+every discharge size.  (`repeated_ticket_example` below: hypotheses satisfied at 3 × 3.) -/
+theorem repeated_ticket_is_quadratic (k : B) (m : Mac B) (dms : List (Mac B)) (tr : Bytes → List B) (cs : List (Cav B))
+    (hv : verify k m dms tr = .ok cs) (p0 : Pending B)
+    (hsame : ∀ p ∈ pendOf (byTicket dms) (macNonce k m.nonce) m.cavs, p = p0) (r : List (Cav B))
+    (hr : firstDischarge (digest (macNonce k m.nonce) :: (tailsAfter (macNonce k m.nonce) m.cavs).map digest)
+      true tr p0.key p0.ds = some r) :
+    cs.length = (m.cavs.filter (kept true)).length + count3P m.cavs * r.length :=
+  repeated_ticket_multiplies k m dms tr cs hv p0 hsame r hr
+
+end verifyWork
+
+section verifyWorkExamples
+open Macaroon.Crypto Symbolic Symbolic.Term
+
+/-- issuer key `atom 0`, third-party key `atom 5`, discharge key `atom 11`; ONE ticket -/
+def f23Ticket : Term := sealTicket (atom 5) (atom 12) (atom 11) [.isUser 3]
+def f23m0 : Mac Term := mint (atom 0) (lit [1]) [] (atom 1) false
+/-- three hand-made third-party caveats (different locations, so `Add` keeps them all) carrying the
+SAME ticket, each VerifierKey sealing the same discharge key under the tail of its position -/
+def f23m1 : Mac Term := (add f23m0 [.plain (.tp [1] (sealKey f23m0.tail (atom 20) (atom 11)) f23Ticket)]).1
+def f23m2 : Mac Term := (add f23m1 [.plain (.tp [2] (sealKey f23m1.tail (atom 21) (atom 11)) f23Ticket)]).1
+def f23m3 : Mac Term := (add f23m2 [.plain (.tp [3] (sealKey f23m2.tail (atom 22) (atom 11)) f23Ticket), .plain (.isUser 7)]).1
+/-- one discharge with three caveats -/
+def f23d : Mac Term :=
+  encodeState (add (mint (atom 11) f23Ticket [9] (atom 14) true)
+    [.plain (.confineUser 5), .plain (.confineUser 6), .plain (.confineUser 8)]).1
+
+/-- F23 at 3 × 3, in the symbolic instance: 4 token caveats (3 third-party), 1 discharge of 3 caveats
+in — 1 + 3·3 = 10 caveats out, the discharge's caveats three times over -/
+theorem repeated_ticket_example :
+    verify (atom 0) f23m3 [f23d] (fun _ => []) =
+      .ok [.isUser 7, .confineUser 5, .confineUser 6, .confineUser 8, .confineUser 5, .confineUser 6, .confineUser 8,
+        .confineUser 5, .confineUser 6, .confineUser 8] ∧
+    count3P f23m3.cavs = 3 ∧ f23d.cavs.length = 3 ∧
+    (tickets3 f23m3.cavs) = [f23Ticket, f23Ticket, f23Ticket] := by
+  refine ⟨by rfl, by rfl, by rfl, by rfl⟩
+
+/-- the hypotheses of `repeated_ticket_is_quadratic` hold of that example: all three queued caveats
+carry the candidate list `[f23d]` under the discharge key `atom 11` -/
+example : (verify (atom 0) f23m3 [f23d] (fun _ => [])).toOption.map List.length = some (1 + 3 * 3) := by
+  have hp : pendOf (byTicket [f23d]) (macNonce (atom 0) f23m3.nonce) f23m3.cavs
+      = [⟨[f23d], atom 11⟩, ⟨[f23d], atom 11⟩, ⟨[f23d], atom 11⟩] := by rfl
+  have hv := repeated_ticket_example.1
+  have := repeated_ticket_is_quadratic (atom 0) f23m3 [f23d] (fun _ => []) _ hv ⟨[f23d], atom 11⟩
+    (by rw [hp]; simp) [.confineUser 5, .confineUser 6, .confineUser 8] (by rfl)
+  rw [hv]
+  simp only [Except.toOption, Option.map_some, this]
+  rfl
+
+/-- … and its work: the discharge is MACed three times (3 · (3 + 1)) on top of the token's 4 + 1 -/
+example : verifyWork (atom 0) f23m3 [f23d] [] true (fun _ => []) = 17 := by rfl
+
+/-- non-vacuity of (3): two third-party caveats with DIFFERENT tickets, each with its own discharge:
+the hypotheses hold, the result is linear (1 + 1 + 1), and key-ids are compared by equality in both
+instances -/
+def linTicket2 : Term := sealTicket (atom 5) (atom 32) (atom 31) [.isUser 4]
+def linM : Mac Term :=
+  (add f23m1 [.plain (.tp [2] (sealKey f23m1.tail (atom 21) (atom 31)) linTicket2), .plain (.isUser 7)]).1
+def linD2 : Mac Term := encodeState (add (mint (atom 31) linTicket2 [9] (atom 34) true) [.plain (.confineUser 9)]).1
+example : (tickets3 linM.cavs).Pairwise (· ≠ ·) := by decide
+example : ∀ a b : Term, kidEq a b = true → a = b := fun a b h => (LawfulCrypto.kidEq_iff a b).mp h
+example : ∀ a b : Bytes, kidEq a b = true → a = b := fun a b h => by simpa [Crypto.kidEq] using h
+example : verify (atom 0) linM [f23d, linD2] (fun _ => []) =
+    .ok [.isUser 7, .confineUser 5, .confineUser 6, .confineUser 8, .confineUser 9] := by rfl
+example : verifyWork (atom 0) linM [f23d, linD2] [] true (fun _ => []) = 4 + (3 + 1) + (1 + 1) := by rfl
+
+end verifyWorkExamples
 
 /-! ### (a) nesting: accepted inputs are within the budget, deeper ones are refused -/
 
@@ -331,3 +504,11 @@ end Macaroon.Props.C12
 #print axioms Macaroon.Props.C12.validate_error_count
 #print axioms Macaroon.Props.C12.validate_error_count_bounded
 #print axioms Macaroon.Props.C12.flyio_access_one_wf_error
+#print axioms Macaroon.Props.C12.verify_result_size
+#print axioms Macaroon.Props.C12.verify_result_size_max
+#print axioms Macaroon.Props.C12.verify_work_bound
+#print axioms Macaroon.Props.C12.tpW_def
+#print axioms Macaroon.Props.C12.walkSteps_exact
+#print axioms Macaroon.Props.C12.verify_work_linear_of_distinct_tickets
+#print axioms Macaroon.Props.C12.repeated_ticket_is_quadratic
+#print axioms Macaroon.Props.C12.repeated_ticket_example
